@@ -141,7 +141,9 @@ pub fn run(case: &Value) -> Value {
         events.push(json!({"ev": "Refusals", "items": items}));
     }
 
-    for sched in case["scheds"].as_array().cloned().unwrap_or_default() {
+    // the intermediate template after every step is reported for the first `step_terms` schedules
+    let with_terms = case["step_terms"].as_u64().unwrap_or(0) as usize;
+    for (sched_no, sched) in case["scheds"].as_array().cloned().unwrap_or_default().into_iter().enumerate() {
         let steps: Vec<String> = sched.as_array().cloned().unwrap_or_default().iter().map(|s| str_of(s).to_string()).collect();
         events.push(json!({"ev": "Sched", "steps": steps}));
         let mut compiler = ctx::make_compiler(&env["cfg"]);
@@ -153,16 +155,20 @@ pub fn run(case: &Value) -> Value {
             match res {
                 Ok(StepOut::Ok(t)) => {
                     let idem = idempotent(&t);
-                    events.push(json!({"ev": "Step", "stage": st, "outcome": "ok", "idem": idem}));
+                    if sched_no < with_terms {
+                        events.push(json!({"ev": "Step", "stage": st, "outcome": "ok", "idem": idem, "terms": tx_values(&t)}));
+                    } else {
+                        events.push(json!({"ev": "Step", "stage": st, "outcome": "ok", "idem": idem, "terms": []}));
+                    }
                     tx = Some(t);
                 }
                 Ok(StepOut::Err(kind)) => {
-                    events.push(json!({"ev": "Step", "stage": st, "outcome": "err", "idem": "na"}));
+                    events.push(json!({"ev": "Step", "stage": st, "outcome": "err", "idem": "na", "terms": []}));
                     failure = Some(json!({"ev": "Final", "outcome": "err", "stage": st, "kind": kind}));
                     break;
                 }
                 Err(p) => {
-                    events.push(json!({"ev": "Step", "stage": st, "outcome": "panic", "idem": "na"}));
+                    events.push(json!({"ev": "Step", "stage": st, "outcome": "panic", "idem": "na", "terms": []}));
                     failure = Some(json!({"ev": "Final", "outcome": "panic", "stage": st, "site": p["file"], "msg": p["msg"]}));
                     break;
                 }
